@@ -9,3 +9,33 @@ package dmg
 //@   nopanic
 //@   requires f != nil
 //@   allocbound 0 10000000
+//@
+//@ func (*DMG).Verify
+//@   property C02
+//@   requires d != nil
+//@   ghost sigOK bool = false
+//@   ghost vb *csblob.VerifiedBlob = nil
+//@   ghost pagesOK bool = false
+//@   before call csblob.Verify(b, p): assert @the_embedded_signature_blob_is_verified_against_the_trailer sameslice(b, d.sigBlob) && sameslice(p.RepSpecific, rep)
+//@   ghost rep []byte = nil
+//@   on call (udifResourceFile).ForHashing(_) ret (b): rep = b
+//@   on call csblob.Verify(_, _) ret (v, e): sigOK = (e == nil); vb = v
+//@   before call io.NewSectionReader(src, off, n): assert @pages_cover_the_image_up_to_the_end_of_the_property_list src == d.r && off == 0 && n == wrap64(d.rsf.XMLOffset + d.rsf.XMLLength)
+//@   before call (*csblob.SigBlob).VerifyPages(sb, _): assert @page_hashes_belong_to_the_verified_signature sigOK && sb == vb.Blob
+//@   on call (*csblob.SigBlob).VerifyPages(_, _) ret (e): pagesOK = (e == nil)
+//@   ensures @signature_verified_and_pages_compared_unless_skipped ret1 == nil ==> sigOK && (!skipDigests ==> pagesOK) && ret0 != nil && ret0.VerifiedBlob == vb
+//@
+//@ func Sign
+//@   property C03 C08
+//@   requires r != nil
+//@   ghost adds int = 0
+//@   before call (*binpatch.PatchSet).Add(_, off, sz, blob): assert @everything_behind_the_bundle_is_replaced_by_signature_and_trailer \
+//@        adds == 0 && off == bundleSize && sz == oldSize - bundleSize && sz >= 0
+//@   on call (*binpatch.PatchSet).Add(_, _, _, _) ret (): adds = adds + 1
+//@   before call csblob.Sign(_, _, p): assert @old_signature_is_read_only_when_it_directly_follows_the_bundle \
+//@        oldOffset != 0 ==> oldOffset == bundleSize
+//@   ensures @one_replacement ret2 == nil ==> adds == 1
+//@
+//@ func (udifResourceFile).ForHashing
+//@   property C02
+//@   modifies nothing
